@@ -48,6 +48,7 @@ fn run_check(id: &str, rep: &mut Report) -> bool {
         "C12" => checks::c12::run(rep),
         "C13" => checks::c13::run(rep),
         "C14" => checks::c14::run(rep),
+        "C15" => checks::c15::run(rep),
         "C16" => checks::c16::run(rep),
         "C17" => checks::c17::run(rep),
         "C18" => checks::c18::run(rep),
@@ -124,6 +125,7 @@ fn main() {
                 "C12" => checks::c12::replay(&v["case"], &mut rep),
                 "C13" => checks::c13::replay(&v["case"], &mut rep),
                 "C14" => checks::c14::replay(&v["case"], &mut rep),
+                "C15" => checks::c15::replay(&v["case"], &mut rep),
                 "C16" => checks::c16::replay(&v["case"], &mut rep),
                 "C17" => checks::c17::replay(&v["case"], &mut rep),
                 "C18" => checks::c18::replay(&v["case"], &mut rep),
